@@ -2,13 +2,17 @@ import Nervus.Driver.Util
 import Nervus.Driver.OKey
 import Nervus.Driver.CapiSched
 import Nervus.Driver.Locks
+import Nervus.Driver.Handles
+import Nervus.Driver.SnapSched
 open Nervus.Driver
 
 /-- stream registry: one line per stream (kept one-per-line so that merges are unions) -/
 def streams : List (String × Stream) := [
   ("okey", OKeyStream.stream),
   ("capi_sched", CapiSchedStream.stream),
-  ("locks", LocksStream.stream)
+  ("locks", LocksStream.stream),
+  ("handles", HandlesStream.stream),
+  ("snapsched", SnapSchedStream.stream)
 ]
 
 def main (args : List String) : IO UInt32 := do
